@@ -518,3 +518,31 @@ def initial_state_rule(repo, res, RULE="OCC-PLACE"):
         except Undecided as x:
             raise AnalysisError("%s [%s]: %s" % (qn, label, x))
         res.check(RULE, "%s [%s]: stores the state, initial occupancy = occupancy of (own shape, that state)" % (qn, label), not bad, owner.mod, fn, "%s [%s]: %s" % (qn, label, "; ".join(bad[:2])), "the initial occupancy is not the obstacle's shape placed at the initial state being stored", qualname=qn)
+
+
+def time_independent_rule(repo, res, RULE="OCC-PLACE"):
+    """StaticObstacle / EnvironmentObstacle.occupancy_at_time(t), evaluated: Occupancy(t, <the placed shape the obstacle
+    holds>) — the shape placed at the initial state for a static obstacle, the shape itself for an environment
+    obstacle — whatever the time step."""
+    for cname, slot in (("StaticObstacle", "_initial_occupancy_shape"), ("EnvironmentObstacle", "_obstacle_shape")):
+        cls = repo.cls(O, cname)
+        owner, fn = repo.find_method(cls, "occupancy_at_time")
+        if fn is None:
+            raise AnalysisError("%s.occupancy_at_time missing" % cname)
+        qn = "%s.occupancy_at_time" % cname
+        ev = _ev(repo)
+        ev.assume_valid = True
+        shapes = {"_initial_occupancy_shape": Obj(None, {}, closed=True, label="shape placed at the initial state"), "_obstacle_shape": Obj(None, {}, closed=True, label="shape of the obstacle")}
+        me = Obj(cls, dict(shapes, _obstacle_id=3, _initial_state=Obj(None, {"time_step": 0}, closed=True, label="initial state")), label=cname)
+        t = Sym("time_step", "int")
+        bad = None
+        try:
+            r = ev.call_fn(ev.bind(fn, owner, me), [t], {}, fn)
+            a = r.args if isinstance(r, Ctor) and r.name == "Occupancy" else None
+            if a is None or a.get("time_step") is not t or a.get("shape") is not shapes[slot]:
+                bad = "answers %s, expected Occupancy(time step, %s)" % (show(r), shapes[slot].label)
+        except _Raise as x:
+            bad = "raises %s" % x.what
+        except Undecided as x:
+            raise AnalysisError("%s: %s" % (qn, x))
+        res.check(RULE, "%s = Occupancy(t, %s)" % (qn, shapes[slot].label), bad is None, cls.mod, fn, "%s %s" % (qn, bad), "the occupancy of a static object depends on something else than its placed shape", qualname=qn)
